@@ -62,6 +62,28 @@ fn c02_timestamp_new() {
     }
 }
 
+//@harness c02_timestamp_constant
+//@target Timestamp::constant (src/timestamp.rs)
+//@prop C02 C05 C13
+//@tier quick
+//@doc for every in-range (second, nanosecond) that does not fall below Timestamp::MIN: the const constructor returns the sign-normalised pair denoting the SAME instant ((ds, dn) in {(0,0),(+1,-10^9),(-1,+10^9)}, never two seconds off), well-formed, and equal to Timestamp::new's answer
+#[kani::proof]
+fn c02_timestamp_constant() {
+    let s: i64 = kani::any();
+    let n: i32 = kani::any();
+    kani::assume(TS_MIN_S <= s && s <= TS_MAX_S && -999_999_999 <= n && n <= 999_999_999 && !(s == TS_MIN_S && n < 0));
+    let ts = Timestamp::constant(s, n);
+    assert!(ts_wf(ts));
+    let ds = ts.as_second() - s;
+    let dn = ts.subsec_nanosecond() as i64 - n as i64;
+    assert!((ds == 0 && dn == 0) || (ds == 1 && dn == -1_000_000_000) || (ds == -1 && dn == 1_000_000_000));
+    let other = Timestamp::new(s, n);
+    assert!(other.is_ok());
+    if let Ok(o) = other {
+        assert!(o.as_second() == ts.as_second() && o.subsec_nanosecond() == ts.subsec_nanosecond());
+    }
+}
+
 // ---- probe stubs: the itime callee is replaced by a function that records its arguments and returns an
 // arbitrary value satisfying the callee's *Verus-proved postcondition*; the wrapper is then checked against
 // that contract only (modular: "a caller is checked against the callee's contract, not its body").
